@@ -1,6 +1,6 @@
 import LpModel.DriverLib
-import LpModel.C09
-open Lp Lp.Interp Lp.C09
+import LpModel.C08
+open Lp Lp.Interp Lp.C09 Lp.C08
 
 /-- op tokens: `I x` `D x k` `G a b` `m a b` `M a b` `gm` `gM` `L x` `P p` `X p` `C` -/
 def pOp : P Op := do
@@ -28,7 +28,24 @@ def pOp2 : P Op2 := do
   | "P" => do let p ← pRat; pure (.setpref p)
   | "X" => do let p ← pRat; pure (.mult p)
   | "C" => pure .copy
+  | "Z" => do let _ ← pNat; let x ← pRat; let y ← pRat; pure (.clobber x y)
   | _ => failure
+
+def pPOp : P POp := do
+  let t ← tok
+  match t with
+  | "N" => do let s ← pNat; let k ← pNat; pure (.make s k)
+  | "K" => do let i ← pNat; let j ← pNat; pure (.copyConstruct i j)
+  | "A" => do let i ← pNat; let j ← pNat; pure (.copyAssign i j)
+  | "X" => do let s ← pNat; pure (.destroy s)
+  | "Q" => do let s ← pNat; let op ← pOp; pure (.call s op)
+  | _ => failure
+
+def showAns (a : Ans) (md : String) (sc : Rat) : String :=
+  match a with
+  | .idx j => "L " ++ toString j ++ " " ++ md
+  | .val v => "V " ++ md ++ " " ++ showRat v ++ " " ++ showRat sc
+  | .unit => "U"
 
 /-- thread the object through the calls with `step`, printing per call the answer class,
     the index for `Locate`, and (coverage only) the search the first look-up used -/
@@ -39,15 +56,31 @@ def trace (o : Obj) (ops : List Op) : Option String := Id.run do
     let md := match op.firstAbscissa with
       | some v => mode o v
       | none => "-"
+    let sc := scaleOf o op
     match step o op with
     | .error _ => return none
     | .ok (a, o') =>
       o := o'
-      match a with
-      | .idx j => out := out.push ("L " ++ toString j ++ " " ++ md)
-      | .val _ => out := out.push ("V " ++ md)
-      | .unit => out := out.push "U"
+      out := out.push (showAns a md sc)
   return some (" ".intercalate out.toList)
+
+/-- the pool of objects: `none` = diagnostic, `some none` = request outside the model -/
+def tracePool (tables : Array (List Rat × List Rat)) (nslots : Nat) (ops : List POp) : Option (Option String) := Id.run do
+  let mut pool : Pool := Array.replicate nslots none
+  let mut out : Array String := #[]
+  for op in ops do
+    let (md, sc) := match op with
+      | .call s q => match pool.getD s none with
+        | some o => ((match q.firstAbscissa with | some v => mode o v | none => "-"), scaleOf o q)
+        | none => ("-", 0)
+      | _ => ("-", 0)
+    match poolStep tables pool op with
+    | .error .diag => return some none
+    | .error .invalid => return none
+    | .ok (a, pool') =>
+      pool := pool'
+      out := out.push (showAns a md sc)
+  return some (some (" ".intercalate out.toList))
 
 def trace2 (o : Obj2) (ops : List Op2) : Option String := Id.run do
   let mut o := o
@@ -55,23 +88,24 @@ def trace2 (o : Obj2) (ops : List Op2) : Option String := Id.run do
   for op in ops do
     let md := match op with
       | .interp x y => mode o.ox x ++ mode o.oy y
+      | .clobber x y => mode o.ox x ++ mode o.oy y
       | _ => "-"
+    let sc := match op with
+      | .clobber x y => scaleOf2 o (.interp x y)
+      | _ => scaleOf2 o op
     match step2 o op with
     | .error _ => return none
     | .ok (a, o') =>
       o := o'
-      match a with
-      | .idx j => out := out.push ("L " ++ toString j ++ " " ++ md)
-      | .val _ => out := out.push ("V " ++ md)
-      | .unit => out := out.push "U"
+      out := out.push (showAns a md sc)
   return some (" ".intercalate out.toList)
 
 def handle : Handler := fun op args =>
   match op with
   -- c09.hist <xs> <ys> <n> op… <m> finalop…   (final queries are threaded after the history)
-  | "c09.hist" => withArgs (do let xs ← pRats; let ys ← pRats; let h ← pList pOp; let q ← pList pOp; pure (xs, ys, h, q)) args
-      fun (xs, ys, h, q) =>
-      match mk xs ys (-1) (-1) with
+  | "c09.hist" => withArgs (do let xs ← pRats; let ys ← pRats; let xd ← pRat; let fd ← pRat; let h ← pList pOp; let q ← pList pOp; pure (xs, ys, xd, fd, h, q)) args
+      fun (xs, ys, xd, fd, h, q) =>
+      match mk xs ys xd fd with
       | .error _ => "err"
       | .ok o =>
         match trace o (h ++ q) with
@@ -86,15 +120,26 @@ def handle : Handler := fun op args =>
       | .ok (j, st) => "ok " ++ toString j ++ " " ++ toString st.jLast ++ " " ++ (if st.corr then "1" else "0")
       | .error _ => "err"
   | "c09.hist2" => withArgs (do
-        let xs ← pRats; let ys ← pRats; let f ← pList pRats; let h ← pList pOp2; let q ← pList pOp2
-        pure (xs, ys, f, h, q)) args
-      fun (xs, ys, f, h, q) =>
-      match mk2 xs ys f (-1) (-1) (-1) with
+        let xs ← pRats; let ys ← pRats; let f ← pList pRats; let xd ← pRat; let yd ← pRat; let fd ← pRat
+        let h ← pList pOp2; let q ← pList pOp2
+        pure (xs, ys, f, xd, yd, fd, h, q)) args
+      fun (xs, ys, f, xd, yd, fd, h, q) =>
+      match mk2 xs ys f xd yd fd with
       | .error _ => "err"
       | .ok o =>
         match trace2 o (h ++ q) with
         | some s => "ok " ++ s
         | none => "err"
+  -- c09.pool <ntables> (<xs> <ys>)… <nslots> <n> pop…
+  | "c09.pool" => withArgs (do
+        let tb ← pList (do let xs ← pRats; let ys ← pRats; pure (xs, ys))
+        let ns ← pNat; let ops ← pList pPOp
+        pure (tb, ns, ops)) args
+      fun (tb, ns, ops) =>
+      match tracePool tb.toArray ns ops with
+      | some (some s) => "ok " ++ s
+      | some none => "err"
+      | none => "undef"
   | _ => none
 
 def main : IO Unit := driverMain handle
